@@ -355,6 +355,14 @@ def rule_dispatch_and_errors(ctx):
         for cb in bbs:
             r = cfg.reach_from([cb], avoid_blocks=frozenset([head]), avoid_edges=frozenset(e_int))
             bad = sorted(rets & r)
+            if bad and e_int:
+                # a result built by a spliced helper (Ok(label)) and re-tested by the caller's `?`: follow known values
+                r = cfg.reach_from_sensitive([cb], avoid_blocks=frozenset([head]), avoid_edges=frozenset(e_int))
+                bad = sorted(rets & r)
+            if not e_int:
+                ctx.note("C06.9 %s: no switch over the handler's error with an Internal arm in the loop body (error handling delegated) - not decided" % h)
+                ctx.ob(R, "%s errors" % h, True, "undecided shape (not reported)", f.loc(f.blocks[cb]["t"].get("ln")))
+                continue
             ctx.ob(R, "%s errors" % h, not bad and bool(e_int), "after %s the loop is left only through the Internal arm of its error" % h if not bad and e_int else
                    "after %s the replica loop can return for a non-internal outcome (a message that is merely rejected stops the replica)" % h, f.loc(f.blocks[cb]["t"].get("ln")))
 
